@@ -33,6 +33,8 @@ type Config struct {
 	Guards map[string]bool
 	// Sanitisers: external or module functions whose result is clean whatever the arguments.
 	Sanitisers map[string]bool
+	// SourceFuncs: results of these functions (core.FuncName) are sources ("Go type text", for the identifier question).
+	SourceFuncs map[string]bool
 	// NegGuardCall: a call whose FALSE result certifies its first argument (strings.ContainsAny(s, "\r\n")).
 	NegGuardCall func(*ssa.CallCommon) bool
 	// SanitiserCall: call-site sensitive sanitisers (strings.Split(x, "\n") for the newline question).
@@ -1127,6 +1129,11 @@ func (a *Analysis) callResult(fn *ssa.Function, b *ssa.BasicBlock, call *ssa.Cal
 	callees := a.callees(fn, call)
 	external := len(callees) == 0
 	for _, callee := range callees {
+		if a.cfg.SourceFuncs[core.FuncName(callee)] && idx == 0 {
+			a.Sources++
+			a.taintVal(into, &Fact{Pos: call.Pos(), What: "text that is not an identifier in general: result of " + core.FuncName(callee)})
+			continue
+		}
 		if callee.Blocks == nil || !a.cfg.InScope(callee) {
 			external = true
 			continue
